@@ -92,6 +92,9 @@ def run(rep, tier, rng):
         forms.append((("dict", list(zip(ks, perm))), {usable[a]: usable[b_] for a, b_ in zip(ks, perm)}))
         forms.append((("seq", ks), [usable[a] for a in ks]))
         forms.append((("seq", ks), tuple(usable[a] for a in ks)))
+        if not hetero:
+            rk = ks + ks[:1] + ks[-1:]                     # a key sequence listing keys more than once
+            forms.append((("seq", rk), [usable[a] for a in rk]))
         forms.append(("by-key", "by-key"))
         forms.append((None, None))
         forms.append(("other", "bykey"))
@@ -184,6 +187,24 @@ def run(rep, tier, rng):
                                 ("direct", cname, repr(marg), tuple(x), tuple(map(tuple, inkeys))), nontrivial=any(x) and len(pairs) >= 2,
                                 sample=dict(base, input=x, output=np.round(out, 4).tolist()) if hetero and len(pairs) >= 3 and not any(abs(v) > 1 for v in x) is False else None)
 
+        # a non-strict output vocabulary that is still empty when the memory is built is an output vocabulary all the same
+        for cname, (cls, kw) in CLASSES.items():
+            vempty = spa.Vocabulary(rng.choice([3, 6]), pointer_gen=np.random.RandomState(4), strict=False)
+            mp = {names[0]: "X0", names[-1]: "Y0"}
+            with warnings.catch_warnings():
+                warnings.simplefilter("ignore")
+                o = c.outcome(lambda: cls(input_vocab=vin, output_vocab=vempty, mapping=mp, add_to_container=False, **kw))
+            rep.case(("empty-output-vocab", trial, cname))
+            rep.count("empty-nonstrict-output-vocabulary")
+            if o[0] != "ok":
+                rep.violation(f"{cname} with an empty non-strict output vocabulary raised {o[0]}: {str(o[1])[:100]}", {"case": {"class": cname}})
+            else:
+                am = o[1]
+                K, V = transforms_of(am)
+                want = np.array([vempty[mp[k]].v for k in mp]).T if all(v_ in vempty for v_ in mp.values()) else None
+                if am.output_vocab is not vempty or am.output.size_in != vempty.dimensions or want is None or V is None or not np.allclose(V, want):
+                    rep.violation(f"{cname}: an empty non-strict output vocabulary is not used as the output vocabulary (output size {am.output.size_in}, "
+                                  f"vocabulary is the given one: {am.output_vocab is vempty})", {"case": {"class": cname, "d_out": vempty.dimensions}})
         # by-key with an output vocabulary lacking a key must not pair silently
         if hetero:
             vmiss = spa.Vocabulary(d_out, pointer_gen=np.random.RandomState(3), strict=True)
